@@ -66,6 +66,14 @@ def run_sim_case(case, acc=None):
         return orig_result(self, timeout=timeout)
 
     P.PopenFuture.result = result
+    orig_is_running = P.PopenFuture.is_running
+
+    def is_running(self):
+        r = orig_is_running(self)
+        sched.yield_point("after-is_running")  # a thread can be preempted between the test and what follows
+        return r
+
+    P.PopenFuture.is_running = is_running
     fails = []
     log = {"accepted": {}, "rejected": set(), "submit_start": {}, "shutdown_returned": [], "results": {}, "set_result_calls": {}}
     try:
@@ -155,6 +163,7 @@ def run_sim_case(case, acc=None):
         fails.append((["harness-stall"], str(e)[:500]))
     finally:
         P.threading, P.Popen, P.psutil, P.concurrent, P.PopenFuture.result = saved
+        P.PopenFuture.is_running = orig_is_running
         # release any thread still parked (daemon threads; they exit with the process otherwise)
     return fails
 
@@ -339,6 +348,17 @@ def run_hang_case(acc=None):
         fails.append((["hang", "solver-alive-after-timeout"], str([c.pid for c in left])))
         for c in left:
             c.kill()
+    # a solver that answers `unsat` only after the (sub-second) time limit: must be unknown, never unsat
+    for limit in (0.5, 0.25):
+        with open(sp, "w") as f:
+            f.write('{"default": {"reply": "unsat", "delay": 3}}')
+        a2 = e2e.mk_args(solver_command=f"/venv/bin/python {stub}", solver_timeout_assertion=limit)
+        t0 = time.time()
+        out = solve_low_level(PathContext(args=a2, path_id=2, solving_ctx=sctx, query=q))
+        if str(out.result) != "unknown":
+            fails.append((["hang", "late-answer-not-unknown"], f"time limit {limit}s, solver answers unsat after 3 s: result {out.result} (returned after {time.time() - t0:.1f}s)"))
+        if acc is not None:
+            acc.case({"kind": "hang", "limit": limit}, True, klass=["late-answer"])
     if acc is not None:
         acc.case({"kind": "hang"}, True, klass=["hang-solver"])
     return fails
